@@ -15,7 +15,9 @@ RULE = (
     "== value of shim(do_grad=False) == 2*reference NLL; gradient == Richardson-extrapolated central "
     "differences of the *reference* NLL over the free parameters (between the two one-sided derivatives "
     "at a kink of code0/code1); length = number of free parameters when stitched; no NaN/inf. "
-    "Non-trivial: >=1 nuisance in an extrapolation regime or on a breakpoint and >=2 modifier types; "
+    "A fifth of the cases are POI-less models made of per-bin factors only (shapesys/staterror/shapefactor). "
+    "Non-trivial: >=1 nuisance in an extrapolation regime or on a breakpoint and >=2 modifier types, or a "
+    "per-bin-factor-only model; "
     "distinct by (shape signature, regime pattern, mask, backend, stitch, codes)."
 )
 ASSUMPTIONS = [
@@ -38,7 +40,17 @@ def shards(tier):
 
 @st.composite
 def strategy_(draw, shard):
-    spec = draw(gen_spec.specs(max_channels=2, max_bins=3, max_samples=3, wellposed=True, overrides=False))
+    binwise_only = draw(st.integers(0, 4)) == 0
+    if binwise_only:
+        # POI-less models whose parameters are all per-bin factors (every parameter reaches the rates through a
+        # plain gather of the parameter vector, several times when shared between samples / constraint)
+        spec = draw(gen_spec.specs(max_channels=2, max_bins=3, max_samples=3, wellposed=False, allow_zero=False,
+                                   overrides=False, kinds=("shapesys", "staterror", "shapefactor"), mod_prob=0.7))
+        if not any(m for c in spec["channels"] for smp in c["samples"] for m in smp["modifiers"]):
+            spec["channels"][0]["samples"][0]["modifiers"].append(
+                {"name": "sf_only", "type": "shapefactor", "data": None})
+    else:
+        spec = draw(gen_spec.specs(max_channels=2, max_bins=3, max_samples=3, wellposed=True, overrides=False))
     ref = RefModel(spec)
     pars = draw(gen_spec.points(ref, positive=True, max_alpha=4.5, in_bounds=True, at_init_prob=0.15))
     exp = ref.expected_main(pars)
@@ -48,7 +60,7 @@ def strategy_(draw, shard):
     fixed = {n: (draw(st.integers(0, 5)) == 0) for n in names}
     if all(fixed.values()):
         fixed[names[0]] = False
-    return {"spec": spec, "pars": pars, "main": main, "aux": aux, "fixed": fixed,
+    return {"spec": spec, "pars": pars, "main": main, "aux": aux, "fixed": fixed, "poiless": binwise_only,
             "stitch": draw(st.booleans()), "backend": shard["backend"],
             "histosys": draw(st.sampled_from(["code4p", "code4p", "code0", "code2"])),
             "normsys": draw(st.sampled_from(["code4", "code4", "code1"]))}
@@ -81,7 +93,8 @@ def run_case(case, ctx):
     tl = backends.use(case["backend"])
     try:
         model = pyhf.Model(spec, modifier_settings={"histosys": {"interpcode": case["histosys"]},
-                                                    "normsys": {"interpcode": case["normsys"]}})
+                                                    "normsys": {"interpcode": case["normsys"]}},
+                           **({"poi_name": None} if case.get("poiless") else {}))
         cfg = model.config
         x = pars_to_flat(cfg, pars)
         data = main_to_flat(cfg, case["main"]) + aux_to_flat(cfg, ref, case["aux"])
@@ -231,7 +244,9 @@ def run_case(case, ctx):
             ctx.label("alpha_extrapolated")
         if set(regs) & {"b", "n", "0"}:
             ctx.label("alpha_on_breakpoint")
-        if (set(regs) & {"x", "b", "n"}) and len(kinds) >= 2:
+        if case.get("poiless"):
+            ctx.label("per_bin_factors_only_no_poi")
+        if ((set(regs) & {"x", "b", "n"}) and len(kinds) >= 2) or (case.get("poiless") and len(kinds) >= 1):
             shape = [(c["name"], len(c["samples"][0]["data"]),
                       sorted((s["name"], sorted((m["type"], m["name"]) for m in s["modifiers"]))
                              for s in c["samples"])) for c in spec["channels"]]
